@@ -35,8 +35,11 @@ Judge(rec) ==
           <<(~rec.keyring_nil /\ rec.armor_start /\ ~stillValid) => (~o.ok /\ handed = <<>>),
             "clearsigned input was accepted without a valid signature by a keyring key">>,
           <<(~rec.keyring_nil /\ rec.armor_start /\ handed # <<>>) =>
-                (o.signer = rec.signed_by /\ goodRef.wf /\ Len(handed) <= Len(goodRef.paras) /\
-                 ParasMatch(handed, SubSeq(goodRef.paras, 1, Len(handed)))),
+                (o.signer = rec.signed_by /\
+                 \* (a text the reference reader calls malformed - a lone CR - and for which the vector names no well-formed
+                 \* beginning is judged against the library's own plain reading of it, below)
+                 ((ref.wf \/ HasField(rec.in, "good")) =>
+                    (goodRef.wf /\ Len(handed) <= Len(goodRef.paras) /\ ParasMatch(handed, SubSeq(goodRef.paras, 1, Len(handed)))))),
             "paragraphs returned are not those of the signed text">>,
           <<(~rec.keyring_nil /\ ~rec.armor_start /\ isSigned) => ~rec.foreign_in_next,
             "unsigned text placed before the armor reaches the caller although a keyring was supplied">>,
@@ -48,6 +51,8 @@ Judge(rec) ==
             "plain document not read faithfully / signer reported for unsigned input">>,
           <<~rec.slice.panic /\ rec.slice.ok = o.ok /\ (o.ok => rec.slice.n = Len(o.paras)),
             "decoding the same bytes into a slice of structs succeeds / fails differently from reading all paragraphs">>,
+          <<(class \in {"positive", "signed-text-malformed"} /\ "plain" \in DOMAIN rec) => (o.ok = rec.plain.ok /\ (o.ok => o.paras = rec.plain.paras)),
+            "the paragraphs of a validly signed text are not those of the same text read without its armor">>,
           <<~rec.all.panic /\ rec.all.ok = o.ok /\ (o.ok => rec.all.n = Len(o.paras)),
             "reading all paragraphs at once succeeds / fails differently from reading them one by one">>,
           <<(o.ok /\ rec.slice.ok) => rec.slice.signer = o.signer, "the Decoder reports another signer than the paragraph reader on the same input">>,
